@@ -38,6 +38,8 @@ func checkC12(p *Prog, r *Report) {
 	// a token's creator, creation time and content survive export/import: the importer consumes every exported field
 	if pimp := p.Func(Rel("x/pnft"), "InitGenesis"); pimp != nil {
 		checkPnftImportReadsAllFields(p, r, kp, pimp)
+		checkUnconditionalLoopEffectByCallee(p, r, kp("LOOP", "x/pnft.InitGenesis#every-denom-imported"), pimp, "SaveDenom")
+		checkUnconditionalLoopEffectByCallee(p, r, kp("LOOP", "x/pnft.InitGenesis#every-pnft-imported"), pimp, "")
 	}
 
 	hs := p.ServerHandlers("MsgServer")["x/pnft"]
@@ -607,4 +609,69 @@ func checkNftPaginatedQueries(p *Prog, r *Report, kp func(string, string) string
 		}
 	}
 	r.Floor("paginated-nft-query-call-sites", n, 1)
+}
+
+
+// checkPnftIdsExcludeDelimiter: the identifier rule of C12-D4 on its own (shared with C06: two (denom, id) pairs that share x/nft's
+// keys share the owner record, so whoever owns one of them transfers and burns the other).
+func checkPnftIdsExcludeDelimiter(p *Prog, r *Report, kp func(string, string) string) {
+	delim, okD, re, dpos := globalByteSliceLit(p, nftKeeperPath, "Delimiter")
+	if !okD || re > 0 || len(delim) != 1 {
+		r.Fail(kp("CONST", "nft.Delimiter"), "x/nft's key delimiter is a one-byte constant", p.Pos(dpos), fmt.Sprintf("literal=%v reassigned=%d value=%v", okD, re, delim))
+		return
+	}
+	n := 0
+	for _, fn := range sortedFuncs(p.ServerHandlers("MsgServer")["x/pnft"]) {
+		hn := FuncName(fn)
+		msg := handlerMsgType(fn)
+		w := pnftEffectsFrom(p, fn)
+		vbRuns := func() bool {
+			vb := p.MethodOf(msg, "ValidateBasic")
+			o := NewOrigin(p, fn)
+			fa := NewFacts(p, fn, o)
+			var top ssa.Instruction
+			for _, cs := range callSites(fn) {
+				if cs.Callee != nil && InPkgs(resolveBound(cs.Callee), "x/pnft/keeper") && !p.IsGenerated(resolveBound(cs.Callee)) {
+					top = cs.Instr
+				}
+			}
+			if top == nil || vb == nil {
+				return false
+			}
+			_, ok := fa.DominatingFact(top, true, func(t *Term) bool {
+				if t.Op != "eq" {
+					return false
+				}
+				a, b := t.Args[0], t.Args[1]
+				if a.Op != "const" {
+					a, b = b, a
+				}
+				return a.Op == "const" && a.Name == "nil" && b.Op == "call" && b.Name == FuncName(vb)
+			})
+			return ok
+		}
+		for _, e := range w.effects {
+			site := p.Pos(e.Instr.Pos())
+			ek := hn + "→" + e.Kind
+			switch e.Kind {
+			case "nft:Mint":
+				n++
+				checkIdExcludesDelimiter(p, r, kp, ek+"#Id", site, msg, e.Term.Args[2].Field("Id"), delim[0], vbRuns())
+			case "nft:SaveClass":
+				n++
+				cls := e.Term.Args[2]
+				if cls.Op == "deref" {
+					cls = cls.Args[0]
+				}
+				var id *Term
+				cls.Walk(func(x *Term) {
+					if id == nil && x.Op == "lit" && (strings.HasSuffix(x.Name, "types.Denom") || strings.HasSuffix(x.Name, "x/nft.Class")) {
+						id = x.Field("Id")
+					}
+				})
+				checkIdExcludesDelimiter(p, r, kp, ek+"#Id", site, msg, id, delim[0], vbRuns())
+			}
+		}
+	}
+	r.Floor("identifier-introducing-effects(pnft)", n, 2)
 }
